@@ -35,6 +35,11 @@ func unitTokTab(w *casefile.Writer, r *rng.R, n int) {
 	defer os.RemoveAll(tmp)
 	for it := 0; it < n; it++ {
 		fields, shape := genTokFields(r)
+		for i := range fields { // keep the Coq evaluation cheap: at most ~600 tokens per case
+			if lim := 600 / len(fields); len(fields[i].toks) > lim {
+				fields[i].toks = fields[i].toks[:lim]
+			}
+		}
 		real := map[string][]frac.VerifC03Token{}
 		type key struct{ f, v string }
 		var all []key
@@ -57,11 +62,11 @@ func unitTokTab(w *casefile.Writer, r *rng.R, n int) {
 			}
 			return all[a].v < all[b].v
 		})
-		tidOf := map[string]int{} // value -> TID (values are unique across the fields of one case)
+		tidOf := map[key]int{} // (field, value) -> TID
 		var fcoq []string
 		var cur []string
 		for j, k := range all {
-			tidOf[k.v] = j + 1
+			tidOf[k] = j + 1
 			if j > 0 && all[j-1].f != k.f {
 				fcoq, cur = append(fcoq, "["+strings.Join(cur, ";")+"]"), nil
 			}
@@ -88,7 +93,13 @@ func unitTokTab(w *casefile.Writer, r *rng.R, n int) {
 		vals := func(vs [][]byte, ps []string) string {
 			parts := make([]string, len(vs))
 			for i, v := range vs {
-				if t, ok := tidOf[string(v)]; ok && ps[i] == "" && v != nil {
+				t, ok := tidOf[key{all[i].f, string(v)}] // the value is looked up in the field the TID belongs to first
+				for _, f := range fields {
+					if !ok {
+						t, ok = tidOf[key{f.name, string(v)}]
+					}
+				}
+				if ok && ps[i] == "" && v != nil {
 					parts[i] = fmt.Sprintf("Some %d", t)
 					if t != i+1 {
 						bad++
